@@ -65,6 +65,10 @@ var denyPkgs = []string{
 	"k8s.io/apimachinery/pkg/util/wait", "unsafe", "bufio", "math/rand", "crypto/", "hash/",
 }
 
+var allowFuncs = map[string]bool{
+	"github.com/imdario/mergo.WithOverride": true,
+}
+
 var allowExceptions = map[string]bool{
 	"k8s.io/apimachinery/pkg/runtime/schema": true,
 }
